@@ -203,3 +203,15 @@ def import_rules(rep, modname, rules, prefix=None, key_prefixes=None):
         if r in sub.rules:
             rep.rules[r] = sub.rules[r] + " [shared with %s]" % modname.upper()
     return n
+
+
+def model_decides(rep, ok, rules, why):
+    """When a model evaluation covers what the structural rules `rules` describe and agrees with the specification everywhere,
+    findings of those structural rules are shape observations, not violations: they are dropped (and noted)."""
+    if not ok:
+        return False
+    dropped = [i.key for i in rep.instances if i.rule in rules and i.status != "discharged"]
+    if dropped:
+        rep.instances[:] = [i for i in rep.instances if not (i.rule in rules and i.status != "discharged")]
+        rep.note("%s: %d structural findings not applicable to this shape: %s" % (why, len(dropped), ", ".join(dropped[:6])))
+    return True
